@@ -1439,26 +1439,32 @@ func (s *Serf) handleQueryResponse(resp *messageQueryResponse) {
 	// Process each type of response
 	if resp.Ack() {
 		// Exit early if this is a duplicate ack
-		if _, ok := query.acks[resp.From]; ok {
+		if query.seenAck(resp.From) {
 			metrics.IncrCounterWithLabels([]string{"serf", "query_duplicate_acks"}, 1, s.metricLabels)
 			return
 		}
 
 		metrics.IncrCounterWithLabels([]string{"serf", "query_acks"}, 1, s.metricLabels)
 		err := query.sendAck(resp)
-		if err != nil {
+		if err == errDuplicateQueryReply {
+			// A copy handled concurrently got there first
+			metrics.IncrCounterWithLabels([]string{"serf", "query_duplicate_acks"}, 1, s.metricLabels)
+		} else if err != nil {
 			s.logger.Printf("[WARN] %v", err)
 		}
 	} else {
 		// Exit early if this is a duplicate response
-		if _, ok := query.responses[resp.From]; ok {
+		if query.seenResponse(resp.From) {
 			metrics.IncrCounterWithLabels([]string{"serf", "query_duplicate_responses"}, 1, s.metricLabels)
 			return
 		}
 
 		metrics.IncrCounterWithLabels([]string{"serf", "query_responses"}, 1, s.metricLabels)
 		err := query.sendResponse(NodeResponse{From: resp.From, Payload: resp.Payload})
-		if err != nil {
+		if err == errDuplicateQueryReply {
+			// A copy handled concurrently got there first
+			metrics.IncrCounterWithLabels([]string{"serf", "query_duplicate_responses"}, 1, s.metricLabels)
+		} else if err != nil {
 			s.logger.Printf("[WARN] %v", err)
 		}
 	}
